@@ -204,7 +204,7 @@ func runC03(rc *RunCtx, i int) {
 		go func(k int) {
 			defer wg.Done()
 			e := c.w.Eng[k%len(c.w.Eng)]
-			ctx, cancel := context.WithTimeout(context.Background(), 120*time.Second)
+			ctx, cancel := context.WithTimeout(context.Background(), core.Patience)
 			defer cancel()
 			rs, err := e.Query(ctx, queries[k])
 			if err != nil {
@@ -295,7 +295,7 @@ func runC03(rc *RunCtx, i int) {
 	}
 	// later queries are unaffected by the mutation of earlier results
 	for _, e := range c.w.Eng[:1] {
-		ctx, cancel := context.WithTimeout(context.Background(), 120*time.Second)
+		ctx, cancel := context.WithTimeout(context.Background(), core.Patience)
 		res := world.RunQuery(ctx, e, &bs.Query{})
 		cancel()
 		if res.QErr != nil || res.Err != nil {
@@ -390,7 +390,7 @@ func runC03(rc *RunCtx, i int) {
 				q := queries[er.Intn(len(queries))]
 				go func() {
 					defer ewg.Done()
-					ctx, cancel := context.WithTimeout(context.Background(), 120*time.Second)
+					ctx, cancel := context.WithTimeout(context.Background(), core.Patience)
 					defer cancel()
 					res := world.RunQuery(ctx, e, q)
 					emu.Lock()
